@@ -312,6 +312,7 @@ def marginal_branches(ctx: Ctx):
     ctx.ob("marginal-mirror.stddev", f"{MM}::_ScaleMeanStddev._rows/_columns_weighted_mean_stddev", f"rows: axis={ax_r} mask={sub_r}; columns: axis={ax_c} mask={sub_c}", "rows: axis 1, mask on columns; columns: axis 0, mask on rows", ax_r == ["1", "1"] and ax_c == ["0", "0"] and all(s.replace(" ", "").startswith(":,") or s.replace(" ","").startswith("(:,") for s in sub_r) and all(s.replace(" ", "").endswith(",:") or s.replace(" ","").endswith(",:)") for s in sub_c))
     ctx.require_min("marginal branch pairs", 15)
     twin_arithmetic(ctx)
+    twin_constructs(ctx)
 
 
 _ARITH_CALLS = {"np.sum", "np.nansum", "np.sqrt", "pow", "np.power", "np.mean", "np.nanmean", "np.dot", "np.matmul", "np.einsum", "np.average", "np.square", "np.multiply", "np.divide",
@@ -362,6 +363,57 @@ def twin_arithmetic(ctx: Ctx):
                "the same operations on both sides (only the axes differ)", not (only_r or only_c), "twins that round differently are not each other's transposes")
     ctx.count("twin function pairs compared by arithmetic", n)
     ctx.require_min("twin function pairs compared by arithmetic", 4)
+
+
+def twin_constructs(ctx: Ctx):
+    """A class that overrides how the subtotal ROWS are stacked overrides the subtotal COLUMNS the same way (and vice versa):
+    both twins in the class's own body, built from the same kinds of constructs (loop / comprehension / stores by index /
+    stacking call, hstack and vstack being each other's mirror).  One twin rewritten - say as "copy the defaults, overwrite
+    by the position among the differences" - while the other still stacks one vector per subtotal is an asymmetry whatever
+    the rewritten twin computes."""
+    import collections
+
+    from ..mirror import swap_ident
+
+    def profile(fn, mirror=False):
+        c = collections.Counter()
+        for n in ast.walk(fn):
+            if isinstance(n, (ast.For, ast.While)):
+                c["loop"] += 1
+            elif isinstance(n, (ast.ListComp, ast.GeneratorExp)):
+                c["comprehension"] += 1
+            elif isinstance(n, (ast.Assign, ast.AugAssign)) and any(isinstance(t, ast.Subscript) for t in (n.targets if isinstance(n, ast.Assign) else [n.target])):
+                c["store-by-index"] += 1
+            elif isinstance(n, ast.Call) and u(n.func).startswith("np."):
+                name = u(n.func)[3:]
+                c["np." + (swap_ident(name) if mirror else name)] += 1
+            elif isinstance(n, ast.Call) and isinstance(n.func, ast.Name) and n.func.id in ("enumerate", "zip", "filter", "sorted"):
+                c[n.func.id] += 1
+        return c
+
+    mod = ctx.repo.module(MS)
+    n = 0
+    for ci in mod.classes.values():
+        own = {k for k in ("_subtotal_rows", "_subtotal_columns") if k in ci.members}
+        if not own:
+            continue
+        n += 1
+        where = f"{MS}::{ci.name}._subtotal_rows <-> _subtotal_columns"
+        # one confirmed exception (read, not inferred): the overlaps tensor exists for MULTIPLE-RESPONSE COLUMNS only - an MR
+        # dimension carries no subtotals, so there are inserted rows (which repeat the base row) and never inserted columns
+        if len(own) == 1 and ci.name == "OverlapSubtotals" and own == {"_subtotal_rows"}:
+            ctx.held("twin-constructs", where, "only _subtotal_rows is overridden (listed exception)", "the overlaps measure has no inserted columns: its columns dimension is multiple response")
+            continue
+        if len(own) == 1:
+            ctx.violated("twin-constructs", where, f"only {sorted(own)[0]} is overridden in {ci.name}", "both twins overridden together", "the other direction still uses the inherited stacking")
+            continue
+        pr = profile(ci.members["_subtotal_rows"].node, mirror=True)
+        pc = profile(ci.members["_subtotal_columns"].node)
+        only_r, only_c = dict(pr - pc), dict(pc - pr)
+        ctx.ob("twin-constructs", where, f"rows only: {only_r}; columns only: {only_c}" if (only_r or only_c) else f"same constructs on both sides: {dict(pc)}", "the same constructs on both sides (hstack <-> vstack)",
+               not (only_r or only_c), "row and column subtotals of one class are built the same way")
+    ctx.count("classes overriding the subtotal stacks", n)
+    ctx.require_min("classes overriding the subtotal stacks", 2)
 
 
 def _last_leaf(e):
